@@ -15,7 +15,7 @@ def _in(e, table):
     class _C:
         pass
     c = _C(); c.e = e
-    return strmodel.in_ranges(c, __import__("vf.unitables", fromlist=["tables"]).tables()[table]).e
+    return strmodel.in_ranges(c, strmodel.clipped(table)).e
 
 
 def is_dec_(e):
@@ -81,4 +81,74 @@ def _version_ok(chars, num):
         if p < len(chars):
             e = chars[p].e if hasattr(chars[p], "e") else z3.BitVecVal(chars[p], 32)
             alts.append(z3.And(a, z3.Or(e == ord(";"), is_ws(e))))
+    return z3.Or(alts) if alts else z3.BoolVal(False)
+
+
+# ------------------------------------------------------------------------------------------------ well-formed lexemes (C15)
+# reserved words of OpenQASM 3 as the front end classifies them (spec "Identifiers": keywords may not be used as
+# identifiers; qasm3Lexer.g4 keyword rules).  text -> SyntaxKind name
+KEYWORDS = {
+    "OPENQASM": "O_P_E_N_Q_A_S_M_KW", "barrier": "BARRIER_KW", "box": "BOX_KW", "cal": "CAL_KW", "const": "CONST_KW", "def": "DEF_KW",
+    "defcal": "DEFCAL_KW", "defcalgrammar": "DEFCALGRAMMAR_KW", "delay": "DELAY_KW", "extern": "EXTERN_KW", "gate": "GATE_KW",
+    "gphase": "GPHASE_KW", "include": "INCLUDE_KW", "let": "LET_KW", "measure": "MEASURE_KW", "reset": "RESET_KW", "break": "BREAK_KW",
+    "case": "CASE_KW", "continue": "CONTINUE_KW", "default": "DEFAULT_KW", "else": "ELSE_KW", "end": "END_KW", "for": "FOR_KW", "if": "IF_KW",
+    "in": "IN_KW", "return": "RETURN_KW", "switch": "SWITCH_KW", "while": "WHILE_KW", "array": "ARRAY_KW", "creg": "CREG_KW",
+    "input": "INPUT_KW", "mutable": "MUTABLE_KW", "output": "OUTPUT_KW", "qreg": "QREG_KW", "qubit": "QUBIT_KW", "readonly": "READONLY_KW",
+    "void": "VOID_KW", "ctrl": "CTRL_KW", "inv": "INV_KW", "negctrl": "NEGCTRL_KW", "pow": "POW_KW", "false": "FALSE_KW", "true": "TRUE_KW",
+    "angle": "ANGLE_TY", "bit": "BIT_TY", "bool": "BOOL_TY", "complex": "COMPLEX_TY", "duration": "DURATION_TY", "float": "FLOAT_TY",
+    "int": "INT_TY", "stretch": "STRETCH_TY", "uint": "UINT_TY",
+}
+# words that are keyword-like in the front end's table but are produced by dedicated lexer rules
+SPECIAL_WORDS = {"pragma": "PRAGMA_KW", "dim": "DIM_KW"}
+# ('#' is not a lexeme of its own in OpenQASM 3: it only introduces `#pragma` / `#dim`)
+PUNCT = {
+    "!": "BANG", "$": "DOLLAR", "%": "PERCENT", "&": "AMP", "(": "L_PAREN", ")": "R_PAREN", "*": "STAR", "+": "PLUS", ",": "COMMA",
+    "-": "MINUS", ".": "DOT", "/": "SLASH", ":": "COLON", ";": "SEMICOLON", "<": "L_ANGLE", "=": "EQ", ">": "R_ANGLE", "?": "QUESTION", "@": "AT",
+    "[": "L_BRACK", "]": "R_BRACK", "^": "CARET", "_": "UNDERSCORE", "{": "L_CURLY", "|": "PIPE", "}": "R_CURLY", "~": "TILDE",
+}
+UNITS = ["ns", "us", "ms", "s", "dt", "µs", "im"]
+BIN = rx.anyof("01")
+OCT = rx.rng("0", "7")
+STRCHAR = rx.cls(lambda e: z3.And(e != 34, e != 39, e != 92, e != 10, e != 13, z3.ULT(e, 0x110000), z3.Or(z3.ULT(e, 0xD800), z3.UGT(e, 0xDFFF))))
+NOT01_ = rx.cls(lambda e: z3.And(e != 34, e != 39, e != 92, e != 10, e != 13, e != 48, e != 49, e != 95, z3.ULT(e, 0x110000), z3.Or(z3.ULT(e, 0xD800), z3.UGT(e, 0xDFFF))))
+
+
+def lexeme_classes():
+    """name -> (expected SyntaxKind name(s), list of (length, regex) shapes).  Lengths are in chars.
+    An entry with two kinds is a lexeme that the front end splits in two tokens (number + unit)."""
+    C = {}
+    ident = lambda n: rx.seq(XIDS, *([XIDC] * (n - 1)))
+    C["identifier"] = (["IDENT"], [(1, rx.cls(lambda e: _in(e, "XID_Start"))), (2, ident(2)), (3, ident(3))])
+    C["hardware_qubit"] = (["HARDWAREIDENT"], [(2, rx.seq(rx.ch("$"), DIG)), (3, rx.seq(rx.ch("$"), DIG, DIG))])
+    C["int_decimal"] = (["INT_NUMBER"], [(1, DIG), (2, rx.seq(DIG, DIG)), (3, rx.seq(DIG, rx.ch("_"), DIG))])
+    C["int_binary"] = (["INT_NUMBER"], [(3, rx.seq(rx.ch("0"), rx.anyof("bB"), BIN)), (5, rx.seq(rx.ch("0"), rx.anyof("bB"), BIN, rx.ch("_"), BIN))])
+    C["int_octal"] = (["INT_NUMBER"], [(3, rx.seq(rx.lit("0o"), OCT)), (5, rx.seq(rx.lit("0o"), OCT, rx.ch("_"), OCT))])
+    C["int_hex"] = (["INT_NUMBER"], [(3, rx.seq(rx.ch("0"), rx.anyof("xX"), HEX)), (5, rx.seq(rx.ch("0"), rx.anyof("xX"), HEX, rx.ch("_"), HEX))])
+    C["float"] = (["FLOAT_NUMBER"], [(3, rx.seq(DIG, rx.ch("."), DIG)), (2, rx.seq(DIG, rx.ch("."))), (2, rx.seq(rx.ch("."), DIG)),
+                                     (3, rx.seq(DIG, rx.anyof("eE"), DIG)), (4, rx.seq(DIG, rx.anyof("eE"), rx.anyof("+-"), DIG)),
+                                     (5, rx.seq(DIG, rx.ch("."), DIG, rx.anyof("eE"), DIG)), (4, rx.seq(rx.ch("."), DIG, rx.anyof("eE"), DIG))])
+    for u in UNITS:
+        C[f"int_{u}"] = (["INT_NUMBER", "IDENT"], [(1 + len(u), rx.seq(DIG, rx.lit(u)))])
+        C[f"float_{u}"] = (["FLOAT_NUMBER", "IDENT"], [(3 + len(u), rx.seq(DIG, rx.ch("."), DIG, rx.lit(u)))])
+    C["bit_string"] = (["BIT_STRING"], [(3, rx.seq(rx.ch('"'), BIN, rx.ch('"'))), (5, rx.seq(rx.ch('"'), BIN, rx.ch("_"), BIN, rx.ch('"'))),
+                                        (4, rx.seq(rx.ch("'"), BIN, BIN, rx.ch("'")))])
+    C["string"] = (["STRING"], [(3, rx.seq(rx.ch('"'), NOT01_, rx.ch('"'))), (4, rx.seq(rx.ch('"'), STRCHAR, NOT01_, rx.ch('"'))), (3, rx.seq(rx.ch("'"), NOT01_, rx.ch("'")))])
+    for w, k in KEYWORDS.items():
+        if w != "OPENQASM":
+            C["kw_" + w] = ([k], [(len(w), rx.lit(w))])
+    for p, k in PUNCT.items():
+        C["punct_" + k] = ([k], [(1, rx.ch(p))])
+    return C
+
+
+def is_xid_continue(e):
+    return _in(e, "XID_Continue")
+
+
+def is_keyword_text(chars):
+    """z3 Bool: the char list spells a reserved word (or the lone underscore)"""
+    alts = []
+    for w in list(KEYWORDS) + list(SPECIAL_WORDS) + ["_"]:
+        if len(w) == len(chars):
+            alts.append(z3.And([(c.e if hasattr(c, "e") else z3.BitVecVal(c, 32)) == ord(x) for c, x in zip(chars, w)]))
     return z3.Or(alts) if alts else z3.BoolVal(False)
